@@ -19,6 +19,8 @@ def check(run):
         crules.model_rules(run, "C03-model", ast, parts=("pf", "iter", "vp"))
         crules.merge_rules(run, "C03-model", None, ast)
         crules.phase_rules(run, "C03-model", ast)
+        # the next pointer update stores through is the one the FIRST registration of the function established
+        crules.idem_rules(run, "C03-model", ast)
     # the pointer update stores through is the definition container's own `next`: detected for every container that has one
     from .. import e3
     nu = e3.Unit("c03_next", """
@@ -40,6 +42,9 @@ using namespace c03n;
     for c, has in (("Plain", True), ("NoDefault", True), ("Crtp", True), ("CrtpNoDefault", True), ("None", False), ("Wrong", False)):
         nu.add("has_next|%s" % c, "definition container %s: add_definition %s its next pointer" % (c, "registers" if has else "has none to register"),
                "static_assert(std::is_base_of_v<M::add_definition_<%s, %s>, M::add_definition<%s>>);" % (c, "true" if has else "false", c))
+    nu.raw("struct Crtp2 : M::next<Crtp2> { static int fn(A&); };")
+    nu.add("next|per-container", "method::next<C> is a distinct variable per definition container (one next pointer per definition)",
+           "static_assert(!std::is_same_v<M::next<Crtp>, M::next<Crtp2>> && &M::next<Crtp>::next != &M::next<Crtp2>::next);")
     run.rule("C03-wiring", "add_definition hands the container's `next` (of the method's next_type) to the registration, whatever else the container is (not default-constructible, CRTP helper)", floor=6)
     for ob, ok, msg in e3.run_unit(run, "C03-wiring", nu):
         if not ok:
